@@ -2064,6 +2064,9 @@ isal_read_gzip_header(struct inflate_state *state, struct isal_gzip_header *gz_h
 
                         if ((hcrc & 0xffff) != load_le_u16(next_in))
                                 return ISAL_INCORRECT_CHECKSUM;
+                } else {
+                        /* The running crc kept while the flags were not yet known */
+                        gz_hdr->hcrc = 0;
                 }
 
                 state->wrapper_flag = 1;
